@@ -98,7 +98,7 @@ func c06Exec(frames []CFrame, seq []int, tail int, alone []string, kind int) *co
 			kept, keptObs, keptAt = append(kept, p), append(keptObs, got), append(keptAt, j)
 		}
 		drawn := st.used() - before
-		if err != nil && p == nil && res.Panic == "" && !res.Budget && drawn <= c06HeaderLen(frames[i].B) && drawn < len(frames[i].B) {
+		if err != nil && p == nil && res.Panic == "" && !res.Budget && drawn <= c06HeaderLen(frames[i].B) && drawn < len(frames[i].B) && c06HeaderObjectionable(frames[i].B) {
 			// rejected while reading the fixed header (a stricter decoder may
 			// refuse e.g. a non-minimal remaining length): the call did not
 			// get past the fixed header, nothing is demanded of it, and the
@@ -125,6 +125,25 @@ func c06Exec(frames []CFrame, seq []int, tail int, alone []string, kind int) *co
 		}
 	}
 	return nil
+}
+
+// c06HeaderObjectionable: may a (stricter) decoder refuse this frame on the
+// strength of its fixed header alone? Only then is "did not get past the
+// fixed header" an acceptable outcome.
+func c06HeaderObjectionable(b []byte) bool {
+	t, fl := b[0]>>4, b[0]&15
+	if t == 0 {
+		return true
+	}
+	if t == 3 {
+		if (fl>>1)&3 == 3 {
+			return true
+		}
+	} else if fl != spec.DefaultFlags(t) {
+		return true
+	}
+	n := c06HeaderLen(b)
+	return !spec.IsMinimalVarint(b[1:n])
 }
 
 func c06HeaderLen(b []byte) int {
